@@ -7,6 +7,8 @@
     premises, what other properties establish or what is external:
       - codec round trip  decompress (compress b) |b| = b     C09/C10 for carquet's Snappy and LZ4; zlib, zstd external
       - the page-header and footer parsers read back what the encoders wrote                         C13 (Thrift)
+        (premises of the parametric theorems; DISCHARGED for carquet's own Thrift code in the *_carquet theorems at
+        the end of this file: Writer/ThriftHeader.v, Writer/ThriftFooter.v, Writer/CarquetInstances.v)
       - sizes that fit the int32/uint32 fields of the format (chunk totals < 2^31, footer < 2^32).
     Not covered by the proof (observed by the check): pointer lifetime of byte-array results; consumption
     histories other than one large read_batch per chunk are C02 (cursor_refines), the three I/O paths C03. *)
@@ -15,7 +17,7 @@ From Carquet Require Import Base.Res Gen.Enums_gen Enc.RleModel Enc.DeltaBits En
      Writer.TableSpec Writer.PageWriterModel Writer.ColumnWriterModel Writer.FileWriterModel
      Reader.PageDecodeModel Reader.ReadAllModel
      Writer.LevelProofs Writer.WriterProofs Writer.ChunkProofs Writer.FileProofs
-     Writer.WriterThriftModel Writer.CodecInstances.
+     Writer.WriterThriftModel Writer.CodecInstances Writer.ThriftHeader Writer.ThriftFooter Writer.CarquetInstances.
 Import ListNotations.
 Local Open Scope N_scope.
 
@@ -126,3 +128,102 @@ Theorem c01_write_read_roundtrip_own_codecs :
                /\ drop_empty r = result_of_table t).
 Proof. exact write_read_roundtrip_own_codecs. Qed.
 Print Assumptions c01_write_read_roundtrip_own_codecs.
+
+(** ---- carquet's own Thrift code: no Thrift premise ----
+
+    [thrift_page_header] is parquet_write_page_header on the header finalize builds, [thrift_footer] is
+    parquet_write_file_metadata on the structure carquet_writer_close builds, [concrete_parse_header] /
+    [concrete_parse_footer] are parquet_parse_page_header / parquet_parse_file_metadata reduced to what the reader
+    uses (all tied byte-for-byte to the C code by checks C01, C05 and C13). *)
+
+(** Every page header the writer can produce ([hdr_ok]: sizes and counts fit int32, statistics at most 64 bytes)
+    is read back exactly, from any position in the file, and occupies between 1 and 256 bytes (the reader's window). *)
+Theorem c01_page_header_carquet : forall h rest, hdr_ok h ->
+  concrete_parse_header (thrift_page_header h ++ rest) = Ok (core_of h, len (thrift_page_header h)) /\
+  0 < len (thrift_page_header h) <= 256.
+Proof. exact page_header_carquet. Qed.
+Print Assumptions c01_page_header_carquet.
+
+(** Every footer the writer can produce ([footer_dom]: one chunk per schema column, numbers within their Thrift
+    fields, names that are C strings, list sizes within the parser's limits) parses back to the same metadata. *)
+Theorem c01_footer_roundtrip_carquet : forall m, footer_dom m -> concrete_parse_footer (thrift_footer m) = Ok m.
+Proof. exact thrift_footer_roundtrip. Qed.
+Print Assumptions c01_footer_roundtrip_carquet.
+
+(** Hence different metadata never share a footer. *)
+Theorem c01_footer_injective_carquet : forall m1 m2, footer_dom m1 -> footer_dom m2 ->
+  thrift_footer m1 = thrift_footer m2 -> m1 = m2.
+Proof. exact thrift_footer_injective. Qed.
+Print Assumptions c01_footer_injective_carquet.
+
+(** The chunk layer with carquet's page headers; any codec satisfying the three codec facts (the form for GZIP and
+    ZSTD, whose compressors are zlib and libzstd). *)
+Theorem c01_chunk_roundtrip_carquet :
+  forall (codec : Z) (compress : list N -> list N) (decompress : list N -> N -> res (list N)) (verify : bool),
+  (Z.eqb codec E_CARQUET_COMPRESSION_UNCOMPRESSED = true -> forall b, compress b = b) ->
+  (Z.eqb codec E_CARQUET_COMPRESSION_UNCOMPRESSED = false ->
+   forall b, Forall (fun x => x < 256) b -> len b < 2 ^ 31 -> decompress (compress b) (len b) = Ok b) ->
+  (forall b, Forall (fun x => x < 256) b -> len b < 2 ^ 31 -> Forall (fun x => x < 256) (compress b)) ->
+  forall (c : column) (page_size : N) (bs : list batch) (w : cw),
+  column_ok c = true -> forallb (batch_ok c) bs = true ->
+  cw_write_all compress thrift_page_header (cw_init c page_size) bs = Ok w ->
+  let f := cw_finalize compress thrift_page_header w in
+  w_total_values f < 2 ^ 31 -> w_total_uncompressed f < 2 ^ 31 -> len (w_buf f) < 2 ^ 31 ->
+  w_total_values f = len (rows_of c bs) /\
+  (forall pre post fuel, (length (w_buf f) <= fuel)%nat ->
+     read_chunk codec decompress concrete_parse_header verify fuel c (pre ++ w_buf f ++ post) (len pre) (w_total_values f)
+     = Ok (rows_of c bs)).
+Proof. exact chunk_roundtrip_carquet. Qed.
+Print Assumptions c01_chunk_roundtrip_carquet.
+
+(** The chunk layer for UNCOMPRESSED, SNAPPY, LZ4, LZ4_RAW: every piece is carquet's code, only size bounds remain. *)
+Theorem c01_chunk_roundtrip_carquet_own :
+  forall (codec : Z) (verify : bool), own_codec codec ->
+  forall (c : column) (page_size : N) (bs : list batch) (w : cw),
+  column_ok c = true -> forallb (batch_ok c) bs = true ->
+  cw_write_all (codec_compress codec) thrift_page_header (cw_init c page_size) bs = Ok w ->
+  let f := cw_finalize (codec_compress codec) thrift_page_header w in
+  w_total_values f < 2 ^ 31 -> w_total_uncompressed f < 2 ^ 31 -> len (w_buf f) < 2 ^ 31 ->
+  w_total_values f = len (rows_of c bs) /\
+  (forall pre post fuel, (length (w_buf f) <= fuel)%nat ->
+     read_chunk codec (codec_decompress codec) concrete_parse_header verify fuel c (pre ++ w_buf f ++ post) (len pre) (w_total_values f)
+     = Ok (rows_of c bs)).
+Proof. exact chunk_roundtrip_carquet_own. Qed.
+Print Assumptions c01_chunk_roundtrip_carquet_own.
+
+(** The whole file with carquet's page headers and footer; any codec satisfying the three codec facts. *)
+Theorem c01_write_read_roundtrip_carquet :
+  forall (compress : list N -> list N) (decompress : list N -> N -> res (list N)) (verify : bool)
+         (sch : list column) (opts : options),
+  (Z.eqb (o_codec opts) E_CARQUET_COMPRESSION_UNCOMPRESSED = true -> forall b, compress b = b) ->
+  (Z.eqb (o_codec opts) E_CARQUET_COMPRESSION_UNCOMPRESSED = false ->
+   forall b, Forall (fun x => x < 256) b -> len b < 2 ^ 31 -> decompress (compress b) (len b) = Ok b) ->
+  (forall b, Forall (fun x => x < 256) b -> len b < 2 ^ 31 -> Forall (fun x => x < 256) (compress b)) ->
+  forallb column_ok sch = true ->
+  forall ops t, table_of sch ops = Some t ->
+  schema_fits sch = true -> N.of_nat (S (newrgs ops)) <= MAX_ROW_GROUPS ->
+  exists sts w, run_writer compress thrift_page_header thrift_footer sch opts ops = Ok (sts, w, true)
+    /\ all_ok sts = true /\
+    (Forall (fun g => Forall small_chunk (rg_chunks g)) (f_groups w) ->
+     meta_small (metadata_of w) -> len (thrift_footer (metadata_of w)) < 2 ^ 32 ->
+     exists r, read_all (o_codec opts) decompress concrete_parse_header concrete_parse_footer verify (f_out w) = Ok r
+               /\ drop_empty r = result_of_table t).
+Proof. exact write_read_roundtrip_carquet. Qed.
+Print Assumptions c01_write_read_roundtrip_carquet.
+
+(** The whole file for UNCOMPRESSED, SNAPPY, LZ4, LZ4_RAW: writer, compressors, Thrift encoders, parsers,
+    decompressors and reader are all carquet's; the only premises are the history being a table, the parser limits,
+    and the size bounds on what was produced. *)
+Theorem c01_write_read_roundtrip_carquet_own :
+  forall (verify : bool) (sch : list column) (opts : options), own_codec (o_codec opts) ->
+  forallb column_ok sch = true ->
+  forall ops t, table_of sch ops = Some t ->
+  schema_fits sch = true -> N.of_nat (S (newrgs ops)) <= MAX_ROW_GROUPS ->
+  exists sts w, run_writer (codec_compress (o_codec opts)) thrift_page_header thrift_footer sch opts ops = Ok (sts, w, true)
+    /\ all_ok sts = true /\
+    (Forall (fun g => Forall small_chunk (rg_chunks g)) (f_groups w) ->
+     meta_small (metadata_of w) -> len (thrift_footer (metadata_of w)) < 2 ^ 32 ->
+     exists r, read_all (o_codec opts) (codec_decompress (o_codec opts)) concrete_parse_header concrete_parse_footer verify (f_out w) = Ok r
+               /\ drop_empty r = result_of_table t).
+Proof. exact write_read_roundtrip_carquet_own. Qed.
+Print Assumptions c01_write_read_roundtrip_carquet_own.
